@@ -153,11 +153,15 @@ def gen_program(rng, i):
             it.roles[first]["version"] = nv
             prog.append({"op": "sign_targets_editor", "keys": it.roles[first]["keys"]})
             prog.append({"op": "change_delegated_targets", "role": "targets"})
-        vers = (vers[0] + 1, vers[1] + 1, vers[2] + 1)
+        # half of the second generations are written into the directories that still hold the first generation's files,
+        # and half of those keep the version of the top-level role (the role is signed again under the number on disk)
+        same_dir = rng.random() < 0.5
+        keep_version = same_dir and rng.random() < 0.5
+        vers = (vers[0] + (0 if keep_version else 1), vers[1] + 1, vers[2] + 1)
         prog.append({"op": "versions", "targets": vers[0], "snapshot": vers[1], "timestamp": vers[2]})
         prog.append({"op": "expires", "targets": 86400 * 50, "snapshot": 86400 * 51, "timestamp": 86400 * 52})
         it.versions = vers
-        prog.append({"op": "sign_write", "keys": final_keys, "publish": "all", "link": False})
+        prog.append({"op": "sign_write", "keys": final_keys, "publish": "all", "link": False, "same_dir": same_dir})
     prog.append({"op": "load"})
     return prog, it, cs, {"inadequate": inadequate, "final_keys": final_keys, "second_generation": second}
 
@@ -925,6 +929,13 @@ def run(chk):
         ops = [p["op"] for p in c["program"]]
         sw = max(k for k, p in enumerate(ops) if p == "sign_write")
         signed_ok = all(r[0] == 0 for r in res[:sw + 1] if True) if kind == "program" else res[sw][0] == 0
+        # a generation that was also written into the directory still holding the previous generation's files must load
+        # from there as well ("writing to disk" is not only writing into an empty directory)
+        if c["program"][sw].get("same_dir") and res[sw][0] == 0 and len(res[sw]) > 2 and res[sw][2]:
+            chk.count("written-over-previous-generation")
+            if res[sw][2][0] != [0]:
+                chk.violation("sign and write succeeded, but written into the directory that holds the previous generation's "
+                              "files the repository is refused by the client: %s" % res[sw][2][0], full)
         if kind == "cross":
             upd = res[info["update_index"]]
             holder = res[info["update_index"] - 2]
